@@ -258,13 +258,24 @@ RECURSIVE VanChecks(_)
 VanChecks(i) == IF i \notin Is THEN <<>> ELSE <<Vanishing(i)>> \o VanChecks(i + 1)
 
 \* native: validate shape (trivial on assignable proofs), vanishing identity per challenge, grinding, rounds
-NativeChecks(db) == VanChecks(0) \o <<PowChk>> \o AllRounds(0, Cardinality(Layers(db)))
+\* every variable-length list a proof carries: the native verifier's shape validation reads their LENGTHS; on the circuit
+\* side the targets have fixed sizes and the library's assignment routine is the shape check
+ListComps ==
+  {S("pis"), S("final_poly"), S("rounds"), S("commit_caps")} \cup Openings
+  \cup (IF IsPlonk THEN {S("wires_cap"), S("zs_cap"), S("quot_cap")} ELSE {S("trace_cap"), S("quot_cap")})
+  \cup {C("commit_cap", 0, l) : l \in Ls} \cup {C("init_leaf", 0, o) : o \in Os} \cup {C("init_path", 0, o) : o \in Os}
+  \cup {C("step_eval", 1, l) : l \in Ls} \cup {C("step_path", 0, l) : l \in Ls}
+\* lists the assignment routine may legitimately find SHORTER than its targets (variable-degree mode): it pads with zeros
+PaddedLists == {c \in ListComps : c.k \in {"init_path", "step_path", "final_poly", "commit_caps"}}
+ShapeChk == Chk("Shape", ListComps, {}, {})
+AssignChk == Chk("Assign", ListComps, {}, {})
+NativeChecks(db) == <<ShapeChk>> \o VanChecks(0) \o <<PowChk>> \o AllRounds(0, Cardinality(Layers(db)))
 \* circuit: the same groups of equality constraints.  In the variable-degree mode the circuit holds NL
 \* conditional layers; layer l is switched on by step_active (Part 3, V1: exactly the proof's own layers),
 \* an inactive layer constrains nothing and passes old_eval through, so the final check reads the last ACTIVE layer.
 \* mutant: the in-circuit range check enforces one leading zero too few
 CircuitPow == IF Mutant = "pow_one_bit_short" THEN Chk("PowLoose", {}, {}, {"pow_response"}) ELSE PowChk
-CircuitChecks(db) == SelectSeq(VanChecks(0) \o <<CircuitPow>> \o AllRounds(0, Cardinality(Layers(db))),
+CircuitChecks(db) == SelectSeq(<<AssignChk>> \o VanChecks(0) \o <<CircuitPow>> \o AllRounds(0, Cardinality(Layers(db))),
                                LAMBDA k : k.id \notin Disabled)
 
 \* ---- adversary classes ----------------------------------------------------------------
@@ -314,7 +325,10 @@ AdaptiveClasses(n) ==
 \* padding verifiers: the grinding response and the query indices differ as soon as something had to be padded
 VarClasses(d) == IF ~IsVar THEN {} ELSE
   { Ad("unpadded", IF Steps(VC, d) < SMax(VC) \/ FinalBits(VC, d) < FinalBits(VC, VC.maxdb) THEN {"Pow"} ELSE {}, {}) }
-Classes(db) == StaticClasses \cup VdClasses \cup AdaptiveClasses(Cardinality(Layers(db))) \cup VarClasses(db)
+\* shape classes: one list at a time gets one surplus element appended / one element removed (otherwise valid proof)
+ShapeClasses == {[name |-> "shape:" \o CompName(c) \o ":" \o d, kind |-> "shape", touched |-> c, partial |-> FALSE, breaks |-> {d}, maybe |-> {}] :
+                   c \in ListComps, d \in {"surplus", "short"}}
+Classes(db) == ShapeClasses \cup StaticClasses \cup VdClasses \cup AdaptiveClasses(Cardinality(Layers(db))) \cup VarClasses(db)
 
 ----------------------------------------------------------------------------
 VARIABLES adv, db, vc, T, pc, nacc, first, maybeFirst
@@ -329,8 +343,20 @@ Tables(d) == [nrer |-> Before(NativeSchedule(d)), crer |-> Before(CircuitSchedul
               nc |-> NativeChecks(d), cc |-> CircuitChecks(d), fs3 |-> NativeSchedule(d) = CircuitSchedule(d)]
 
 \* does check k of a verifier (rer = the absorbed-before relation of its schedule) fail for class a: "yes" | "maybe" | "no"
+\* shape classes: the native Shape check rejects both directions.  The assignment routine refuses a surplus element
+\* (mutant: it silently truncates) and a short list unless it is one it pads; a padded list is a value change of that
+\* component, seen by the checks that read it.
+\* the component whose VALUE changes when such a list is padded (the proof's last commit-phase cap for the cap list)
+Eff(c) == IF c.k = "commit_caps" THEN C("commit_cap", 0, Cardinality(Layers(db)) - 1) ELSE c
+ShapeOutcome(rer, a, k) ==
+  IF k.id = "Shape" THEN TRUE
+  ELSE IF k.id = "Assign"
+       THEN ("surplus" \in a.breaks /\ Mutant # "assign_truncates_surplus") \/ ("short" \in a.breaks /\ a.touched \notin PaddedLists)
+       ELSE "short" \in a.breaks /\ a.touched \in PaddedLists
+            /\ (Eff(a.touched) \in k.reads \cup k.reads1 \/ \E ch \in k.chals : <<Eff(a.touched), ch>> \in rer)
 Outcome(rer, a, k) ==
-  IF \/ a.kind = "static" /\ a.touched \in k.reads
+  IF \/ a.kind = "shape" /\ ShapeOutcome(rer, a, k)
+     \/ a.kind = "static" /\ a.touched \in k.reads
      \/ a.kind = "static" /\ a.touched \in k.reads1 /\ ~a.partial
      \/ a.kind = "static" /\ \E ch \in k.chals : <<a.touched, ch>> \in rer
      \/ a.kind = "adaptive" /\ k.id \in a.breaks
@@ -339,7 +365,9 @@ Outcome(rer, a, k) ==
           \/ a.kind = "adaptive" /\ k.id \in a.maybe
        THEN "maybe" ELSE "no"
 \* a component that exists only in layers the proof does not have is not a class of that degree
-Exists(a, d) == a.kind # "static" \/ a.touched.k \notin {"commit_cap", "step_eval", "step_path"} \/ a.touched.i \in Layers(d)
+Exists(a, d) == IF a.kind \notin {"static", "shape"} THEN TRUE
+                ELSE IF a.touched.k = "commit_caps" THEN Layers(d) # {}
+                ELSE a.touched.k \notin {"commit_cap", "step_eval", "step_path"} \/ a.touched.i \in Layers(d)
 
 Verdict(rer, checks, a) ==
   IF \E i \in 1..Len(checks) : Outcome(rer, a, checks[i]) = "yes" THEN "reject"
@@ -370,7 +398,8 @@ CircuitVerdict == Verdict(T.crer, T.cc, adv)
 Agree == Done => CircuitVerdict = nacc
 FS3 == T.fs3
 \* check-by-check refinement: the circuit list is the native list (ids, read sets, challenges), in order
-Refines == Disabled = {} => T.cc = T.nc
+Refines == Disabled = {} /\ Mutant = "none" => /\ T.cc[1].id = "Assign" /\ T.nc[1].id = "Shape" /\ T.cc[1].reads = T.nc[1].reads
+                                             /\ Tail(T.cc) = Tail(T.nc)
 \* adequacy of the catalogue: every circuit check is the ONLY certain detector of some class (the consistency
 \* checks of the folding chain are always accompanied by the next link: there, a class it certainly detects)
 YesIds(a) == {T.nc[i].id : i \in {j \in 1..Len(T.nc) : Outcome(T.nrer, a, T.nc[j]) = "yes"}}
